@@ -209,7 +209,15 @@ def _private_method_names(root):
                 for nm in names:
                     if nm in src:
                         used_by_tests.add(nm)
-    return names - used_by_tests
+    # a known finding is identified by the function that hosts it: renaming that function makes it a new finding by design
+    hosts = set()
+    try:
+        import json
+        kf = json.load(open(os.path.join(os.path.dirname(os.path.dirname(os.path.abspath(__file__))), 'known_findings.json')))
+        hosts = {k.get('function', '').split('.')[-1] for k in kf.get('known', [])}
+    except Exception:
+        pass
+    return names - used_by_tests - hosts
 
 
 def rename_private_methods(root):
